@@ -128,6 +128,8 @@ func (s *spyServer) Publish(vaaBytes []byte) error {
 			for _, fi := range sub.filters {
 				if fi.chainId == v.EmitterChain && fi.emitterAddr == v.EmitterAddress {
 					sub.ch <- message{vaaBytes: vaaBytes}
+					// one copy per subscriber, also when several filter entries match
+					break
 				}
 			}
 		}
